@@ -27,6 +27,10 @@ add("C02", MC, "Same exhaustive completion-order exploration; per execution the 
     "stateless exhaustive interleaving exploration of the real scheduler with execution-log oracle")
 add("C03", MC, "Same exploration; at every callback point of every execution the real cache/released sets are compared with an abstract must-hold model stepped by the same completion events (both directions of conformance).", "5/C03", SCHED_NOTE,
     "exhaustive interleaving exploration with per-state invariant against an abstract bookkeeping model")
+add("C04", MC, "Every failing-task set (size <= 2/3) x exception kind x completion order on every small graph and entry point: the raised exception's type/message, absence of dependents in the execution log, absence of deadlock (empty queue with nothing pending) and exactly-once finish(failed=True) are checked on every execution.", "5/C04", SCHED_NOTE,
+    "exhaustive fault-set x interleaving exploration of the real scheduler")
+add("C05", MC, "(a) callback protocol checked on every execution of the exhaustive completion-order sweep; (b) breadth-first search over all histories (depth 6/8) of enter/exit/register/unregister/get on the real dask.callbacks objects against a stack-of-frames reference model.", "5/C05", SCHED_NOTE + " Part (b): LIFO exits only; unregister only outside open contexts.",
+    "explicit-state BFS over operation histories + exhaustive interleaving exploration")
 
 
 def build():
